@@ -62,6 +62,8 @@ def configs(tier, seed):
     cfgs.append(dict(backend='dict', backoff='never', n=2, messages=0, prestored=1, harness_wait=True, slow_ops=['get'], d=3, dd=2, menu=MENU,
                      script=[['announce', 0], ['announce', 0]]))
     cfgs.append(dict(backend='redis', backoff='never', n=2, messages=0, prestored=1, redis_yields=['hmget'], d=3, dd=2, menu=MENU))
+    cfgs.append(dict(backend='dict', backoff='never', n=2, messages=1, harness_wait=True, slow_ops=['remove'], d=3, dd=2, menu=MENU,
+                     script=[['enqueue', 0], ['announce', 0]]))
     # failure replies produced by the real relay classes (incl. the library's pre-defined replies for lost
     # connections and timeouts), two messages in one process
     for rk in ('smtp', 'lmtp', 'pipe'):
